@@ -96,3 +96,19 @@ def native(fn, *args, **kw):
     """Run a concrete computation untraced (native speed); arguments must be concrete."""
     with NoTracing():
         return fn(*args, **kw)
+
+
+def _descriptor(cls, name):
+    for k in cls.__mro__:
+        if name in vars(k):
+            return vars(k)[name]
+    raise AttributeError(name)
+
+
+def pset(obj, name, value):
+    """obj.name = value through the class descriptor (CrossHair's patched builtin setattr() runs untraced)."""
+    _descriptor(type(obj), name).__set__(obj, value)
+
+
+def pget(obj, name):
+    return _descriptor(type(obj), name).__get__(obj, type(obj))
